@@ -193,6 +193,11 @@ def scripts_for(tier, rng):
         if ev2 != list(ev):
             low.append(("teamfortress2", "valve-lowcount%d" % i, ev2))
     out += low[:n]
+    # 64-bit identifiers with the top bit set (Steam id, game id whose low 24 bits are the app id): integers must be printed digit for digit
+    for i, (sid, gid) in enumerate(((18446744073709551557, (1 << 63) | 440), (9223372036854775808, 440), (12345678901234567890, (0xfedcba98 << 32) | (7 << 24) | 440))[:(2 if tier == "quick" else 3)]):
+        info = (b"\xff\xff\xff\xff\x49\x11" + b"srv\x00map\x00tf\x00Team Fortress\x00" + (440).to_bytes(2, "little") + bytes([3, 16, 0, 0x64, 0x6c, 0, 1])
+                + b"1.0\x00" + bytes([0x10 | 0x01]) + sid.to_bytes(8, "little") + gid.to_bytes(8, "little"))
+        out.append(("teamfortress2", "valve-bigids%d" % i, [info, b"\xff\xff\xff\xff\x44\x00", b"\xff\xff\xff\xff\x45\x00\x00"]))
     out += [("q3a", "quake%d" % i, [s["dg"]]) for i, s in enumerate(quake_specs([(x, 3) for x in seeds("quake")])) if s["expected"].startswith("Some(")][:n]
     for ver, game in ((1, "unrealtournament"), (2, "hce"), (3, "crysiswars")):
         out += [(game, "gs%d-%d" % (ver, i), s["events"]) for i, s in enumerate(gs_specs(ver, seeds("gs%d" % ver))) if s["fits"]][:n]
